@@ -676,6 +676,38 @@ func c17Table(c *mon.Ctx) {
 	if c.Shard != 0 {
 		return
 	}
+	// the listing functions first (a history: whatever they do to the registry shows in everything below)
+	c.Case("table:registry-listings", nil, func() {
+		for round := 0; round < 2; round++ {
+			stable := gmsl.StableRoomVersions()
+			all := gmsl.RoomVersions()
+			c.Count("registry_listings")
+			for _, t := range ref.Versions {
+				v := gmsl.RoomVersion(t.Version)
+				_, inStable := stable[v]
+				if inStable != t.Stable {
+					c.Failf("table:"+t.Version+":stable-listing", "StableRoomVersions() lists %s: %v, the specification says stable = %v", t.Version, inStable, t.Stable)
+				}
+				if gmsl.StableRoomVersion(v) != t.Stable {
+					c.Failf("table:"+t.Version+":stable-listing", "StableRoomVersion(%s) = %v, want %v", t.Version, !t.Stable, t.Stable)
+				}
+				_, inAll := all[v]
+				_, err := gmsl.GetRoomVersion(v)
+				if !inAll || !gmsl.KnownRoomVersion(v) || err != nil {
+					c.Failf("table:"+t.Version+":not-registered", "room version %s is not reported by RoomVersions / KnownRoomVersion / GetRoomVersion (%v %v %v) after the listing functions were called (round %d)", t.Version, inAll, gmsl.KnownRoomVersion(v), err, round)
+				}
+			}
+			for v := range stable {
+				if ref.Traits(string(v)) == nil {
+					c.Failf("table:unknown-version-listed", "StableRoomVersions() lists %q, which the specification table does not have", v)
+				}
+			}
+			// the caller's copy is the caller's: emptying it must not reach the registry
+			for v := range stable {
+				delete(stable, v)
+			}
+		}
+	})
 	registered := gmsl.RoomVersions()
 	cell := func(ver, trait string, got, want any) {
 		name := "table:" + ver + ":" + trait
